@@ -27,7 +27,7 @@ from ..selftest import Variant
 
 LEVEL = "other"
 META = {
-    "technique": "static analysis: sibling cross-check of the three report walkers (iteration domain, field provenance, filters), def-use of counters, enumeration of every return/exit path of apply_rules and main, name-vs-type comparison lint",
+    "technique": "static analysis: sibling cross-check of the three report walkers (iteration domain, field provenance, filters), def-use of counters, enumeration of every return/exit path of apply_rules and main, name-vs-type comparison lint; must-not-be-dominated check of report producers against the exit-status flag",
     "level_text": "Decides that the stdout, JSON and JUnit producers are projections of one set by construction: same iteration domain, same field "
     "sources, only the documented JUnit filter; counts are len()/increments over the printed list; exit status flows from error-type counts "
     "through apply_rules to sys.exit on every path. Flags consumers that key on the severity name instead of its type.",
